@@ -121,12 +121,22 @@ def real(case):
     from qstrader.system.rebalance.buy_and_hold import BuyAndHoldRebalance
     start, end, pre, post, wd, premkt = case
     S, E = ts(start), ts(end)
+    import pandas as pd
+    if end >= start and (start + end) % 3 == 0:
+        # the model counts minutes; a third of the ranges get seconds and microseconds on both ends - every stamp the code
+        # produces must still be an exact minute (14:30:00.000000 ...), which `exact` checks
+        frac = pd.Timedelta(seconds=30, microseconds=250)
+        S, E = S + frac, E + frac
+
+    def exact(t):
+        m = minutes(t)
+        return m if t == ts(m) else "%s (not a whole minute)" % t
     out = {}
     try:
         eng = DailyBusinessDaySimulationEngine(S, E, pre_market=pre, post_market=post)
-        evs = [(minutes(e.ts), e.event_type) for e in eng]
+        evs = [(exact(e.ts), e.event_type) for e in eng]
         out["clock"] = ("ok", evs)
-        out["clock_again"] = [(minutes(e.ts), e.event_type) for e in eng]      # the same engine object, iterated once more
+        out["clock_again"] = [(exact(e.ts), e.event_type) for e in eng]      # the same engine object, iterated once more
     except Exception as e:
         out["clock"] = ("err", type(e).__name__)
     if end >= start:
@@ -134,11 +144,11 @@ def real(case):
                         ("daily", lambda: DailyRebalance(S, E, pre_market=premkt).rebalances),
                         ("eom", lambda: EndOfMonthRebalance(S, E, pre_market=premkt).rebalances)):
             try:
-                out[name] = ("ok", [minutes(t) for t in f()])
+                out[name] = ("ok", [exact(t) for t in f()])
             except Exception as e:
                 out[name] = ("err", "%s: %s" % (type(e).__name__, e))
     try:
-        out["bah"] = ("ok", [minutes(t) for t in BuyAndHoldRebalance(S).rebalances])
+        out["bah"] = ("ok", [minutes(t) for t in BuyAndHoldRebalance(ts(start)).rebalances])
     except Exception as e:
         out["bah"] = ("err", "%s: %s" % (type(e).__name__, e))
     return out
@@ -207,7 +217,8 @@ def run(prop, replay_file=None):
         err, clock, weekly, daily, eom, bah = results[idx]
         got = real(case)
         rep.cov["evaluations"] += 1
-        desc = dict(start=str(ts(case[0])), end=str(ts(case[1])), pre=case[2], post=case[3], weekday=WD[case[4]], pre_market=case[5])
+        desc = dict(start=str(ts(case[0])), end=str(ts(case[1])), pre=case[2], post=case[3], weekday=WD[case[4]], pre_market=case[5],
+                    plus_30_00025_seconds_on_both_ends=(case[1] >= case[0] and (case[0] + case[1]) % 3 == 0))
 
         def viol(key, detail):
             rep.violation(key, "%s for %s" % (detail, desc), dict(case=case, detail=detail))
@@ -245,7 +256,7 @@ def run(prop, replay_file=None):
                 for name in ("weekly", "daily", "eom"):
                     if got[name][0] == "ok" and not set(got[name][1]) <= full:
                         viol("%s|not-a-clock-event" % name, "%s instants %s are not emitted by the clock" % (
-                            name, [str(ts(x)) for x in sorted(set(got[name][1]) - full)][:3]))
+                            name, [x if isinstance(x, str) else str(ts(x)) for x in sorted(set(got[name][1]) - full, key=str)][:3]))
             if len(weekly) >= 1 and len(eom) >= 1:
                 nontriv.add(tuple(case))
         if idx < 2:
@@ -270,6 +281,7 @@ def _first_diff(got, exp):
         g = got[i] if i < len(got) else None
         e = exp[i] if i < len(exp) else None
         if g != e:
-            f = lambda x: None if x is None else ((str(ts(x[0])), x[1]) if isinstance(x, tuple) else str(ts(x)))
+            show = lambda m: m if isinstance(m, str) else str(ts(m))
+            f = lambda x: None if x is None else ((show(x[0]), x[1]) if isinstance(x, tuple) else show(x))
             return dict(index=i, got=f(g), expected=f(e), got_len=len(got), expected_len=len(exp))
     return None
